@@ -1,5 +1,6 @@
 import Moclo.Proofs.Word
 import Moclo.Proofs.Feature
+import Moclo.Props.C14
 /-!
 # C13 — rotation of a circular record is a lossless group action
 
@@ -104,5 +105,67 @@ example : rotlI (rotrI [1, 2, 3, 4, 5] 12) 12 = [1, 2, 3, 4, 5] := by decide
 /-- an origin-spanning part `[3,5)` of a 5-mer rotated by 3 lands on `[6,8)`, i.e. positions 1,2 -/
 example : ((⟨3, 5, 1⟩ : Part).shift 3).renorm 5 = ⟨1, 3, 1⟩ := by decide
 example : ((⟨3, 5, 1⟩ : Part).shift 1).renorm 5 = ⟨4, 6, 1⟩ := by decide
+
+/-! ## the order in which a feature reads its nucleotides (exon order) turns with the record -/
+
+open Moclo.C14 in
+theorem ascI_shift (c : Int) : ∀ (k : Nat) (s : Int), (ascI s k).map (fun t => t + c) = ascI (s + c) k
+  | 0, _ => rfl
+  | k + 1, s => by
+    simp only [ascI, List.map_cons]
+    rw [ascI_shift c k (s + 1)]
+    have h : s + 1 + c = s + c + 1 := by omega
+    rw [h]
+
+open Moclo.C14 in
+theorem descI_shift (c : Int) : ∀ (k : Nat) (e : Int), (descI e k).map (fun t => t + c) = descI (e + c) k
+  | 0, _ => rfl
+  | k + 1, e => by
+    simp only [descI, List.map_cons]
+    rw [descI_shift c k (e - 1)]
+    have h1 : e - 1 + c = e + c - 1 := by omega
+    rw [h1]
+
+/-- what `>>` does to one part is a shift by `k` minus whole turns -/
+theorem shift_renorm_eq (n : Nat) (k : Int) (p : Part) :
+    ∃ r : Int, ((p.shift k).renorm n) = { p with s := p.s + (k - r * n), e := p.e + (k - r * n) } := by
+  unfold Part.renorm Part.shift
+  simp only []
+  split
+  · exact ⟨(p.s + k) / n, by cases p; simp; constructor <;> omega⟩
+  · exact ⟨0, by cases p; simp⟩
+
+open Moclo.C14 in
+theorem partReading_moved (p : Part) (c : Int) :
+    partReading { p with s := p.s + c, e := p.e + c } = (partReading p).map (fun x => (x.1 + c, x.2)) := by
+  have hlen : (p.e + c - (p.s + c)).toNat = (p.e - p.s).toNat := by congr 1; omega
+  unfold partReading
+  simp only [hlen]
+  split
+  · rw [List.map_map, ← descI_shift c, List.map_map]; rfl
+  · rw [List.map_map, ← ascI_shift c, List.map_map]; rfl
+
+open Moclo.C14 in
+/-- **the reading order turns with the record**: after `>> k` every feature other than the whole-plasmid `source`
+reads, part by part and in the same order, the nucleotides it read before, each moved by `k` around the circle -/
+theorem reading_order_rotates (n k : Nat) (f : Feature)
+    (hsrc : ¬ (f.ftype = 0 ∧ f.parts.length = 1 ∧ f.lo = 0 ∧ f.hi = n)) :
+    (reading (f.rotr n k)).map (fun x => (x.1.emod (n : Int), x.2)) =
+      (reading f).map (fun x => ((x.1 + (k : Int)).emod (n : Int), x.2)) := by
+  unfold Feature.rotr
+  rw [if_neg hsrc]
+  unfold reading
+  simp only [List.flatMap_map, List.map_flatMap]
+  apply List.flatMap_congr
+  intro p _
+  obtain ⟨r, hr⟩ := shift_renorm_eq n k p
+  rw [hr, partReading_moved, List.map_map]
+  apply List.map_congr_left
+  intro x _
+  simp only [Function.comp, Prod.mk.injEq, and_true]
+  have : x.1 + (↑k - r * ↑n) = x.1 + ↑k + (-r) * ↑n := by rw [Int.neg_mul]; omega
+  rw [this]
+  show (x.1 + ↑k + -r * ↑n) % (n : Int) = (x.1 + ↑k) % (n : Int)
+  exact Int.add_mul_emod_self_right _ _ _
 
 end Moclo.C13
